@@ -255,7 +255,7 @@ out-of-range index is reachable. -/
 theorem loadDoc_never_panics (order : Option (List Nat)) (file : Bytes) : (loadDocOrd order file).noPanic := by
   rw [noPanic_iff]
   intro s
-  unfold loadDocOrd loadDocWith
+  unfold loadDocOrd loadDocOrd2 loadDocWith
   repeat' split
   all_goals (try simp_all)
   all_goals (repeat' split)
